@@ -31,4 +31,7 @@ extern struct op_entry ops_template[];
 void template_reset(void);
 extern struct op_entry ops_ieee[];
 void ieee_reset(void);
+extern struct op_entry ops_codec[];
+void codec_reset(void);
+void codec_reset_all(void);
 #endif
